@@ -318,4 +318,37 @@ theorem toc_readback_api (trailer : Dict) (os : Objects) (cat pid : ObjId) (catd
   · rw [Dict.get_set_ne _ _ _ _ (by decide)]; exact hnn
   · exact EmbL_mono _ _ (Nat.le_refl _) _ _ _ _ _ hdict hbemb
 
+/-! ## non-vacuity of `toc_readback_api` -/
+
+instance (c : Nat) : Decidable (IsScalar c) := by unfold IsScalar; exact inferInstance
+
+def exTrailer : Dict := [(ROOT, .ref 1 0)]
+def exCat : Dict := [(TYPE, .name [67, 97, 116, 97, 108, 111, 103]), (PAGES, .ref 2 0)]
+def exOs : Objects :=
+  [((1, 0), .dict exCat),
+   ((2, 0), .dict [(TYPE, .name PAGES), (KIDS, .arr [.ref 3 0, .ref 4 0])]),
+   ((3, 0), .dict [(TYPE, .name PAGE)]),
+   ((4, 0), .dict [(TYPE, .name PAGE)])]
+def exKs : List PT := [.page (3, 0), .page (4, 0)]
+
+theorem exOs_old : ∀ q x, exOs.get q = some x → q.1 ≤ 4 := by
+  intro q x h
+  simp only [exOs, Objects.get] at h
+  repeat' split at h
+  all_goals first | (subst_vars; simp) | (simp at h)
+
+/-- the hypotheses of `toc_readback_api` are met by a two-page document and the interleaved
+`add_bookmark` sequence `exOps` (with an orphan): the theorem then gives the four-entry table of
+contents A(1) > B(1), C(2) ; é😀(2). -/
+example : ∃ b, buildOutline 4 (addAll BmState.empty exOps) 4 = some (some b) ∧
+    getToc 4 exTrailer (setOutlines (installObjs exOs b.objs) (1, 0) b.root) =
+      .ok [⟨1, [65], 1⟩, ⟨2, [66], 1⟩, ⟨2, [67], 2⟩, ⟨1, [0xE9, 0x1F600], 2⟩] 0 := by
+  have h := toc_readback_api exTrailer exOs (1, 0) (2, 0) exCat exKs 4 exOps rfl rfl rfl rfl
+    (by simp only [exKs, EmbedsL, Embeds]; exact ⟨rfl, rfl, trivial⟩)
+    (by decide) (by decide) exOs_old rfl rfl
+    (by decide) (by decide) (by decide)
+    (by decide)
+    (by decide) 4 4 (by decide) (by decide)
+  exact h
+
 end Lopdf.C17
